@@ -101,7 +101,7 @@ ClientSees(e, w) ==
     [] e \in {"fx:5", "fx:6", "fx:7", "fx:8"} /\ w = "bare" -> "code:" \o SubSeq(e, 4, 4)
     [] OTHER -> Underlying(e)
 
-(* a wrapped SFTP code is outside the property's wording (codes "as given" are bare); EOF inside os wrappers does not occur in os *)
+(* a wrapped SFTP code is outside the property's wording (codes "as given" are bare); io.EOF inside os's wrappers is end-of-file *)
 ErrCases == {[kind |-> "error", err |-> e, wrap |-> w, want |-> ClientSees(e, w)] :
                e \in Errs, w \in Wraps} \ {c \in [kind : {"error"}, err : Errs, wrap : Wraps, want : STRING] : FALSE}
 =============================================================================
